@@ -299,6 +299,16 @@ pub fn history(data: &[u32]) -> (Vec<E>, bool) {
 }
 
 /// does the program read a name before any assignment to it (reduction artefact)?
+/// Source text of a generated history (used by the rc / arc differential)
+pub fn history_source(data: &[u32]) -> Option<String> {
+    let (prog, _) = history(data);
+    // only histories that the abstract heap judges: cyclic containers and self-aliased binary
+    // operations (recorded findings: unbounded recursion, re-entrant borrow) are left out
+    let m = model::run_program(&prog, true);
+    m.result.as_ref()?;
+    Some(print_program(&prog, &Layout::canonical()))
+}
+
 fn undefined_names(prog: &[E]) -> bool {
     let mut assigned: Vec<String> = vec!["copy".into(), "koto".into(), "size".into(), "print".into(), "q".into(), "p".into(), "_e".into()];
     let mut bad = false;
